@@ -329,7 +329,10 @@ class CHECK(Check):
         pls = [p for p in self._pls(case) if p is not None]
         # two observed values (C14.pos_label_swap_public) or ONE observed value, the other class unobserved
         # (C14.pos_label_swap_single): both are inside the property's quantifier
-        if len(pls) == 2 and len(set(yt) | set(yp)) in (1, 2):
+        # (the single observed value must be one of the two pos_labels: switching between two UNOBSERVED classes leaves it the
+        # negative class both times and exchanges nothing — false alarm found by the review's own x3-budget run and removed)
+        obs = set(yt) | set(yp)
+        if len(pls) == 2 and (len(obs) == 2 or (len(obs) == 1 and next(iter(obs)) in pls)):
             a, b_ = pls
             for k1, k2 in (("tpr", "tnr"), ("fpr", "fnr"), ("tnr", "tpr"), ("fnr", "fpr")):
                 x, y = val(f"{k1}@{a}"), val(f"{k2}@{b_}")
